@@ -84,18 +84,29 @@ def run(lines, out, args):
             I = IX
         else:
             def mk(cu=cu):
+                inherited = cu[0] == "I"
+                tok = cu[1:] if inherited else cu
+
                 class IC(Interface):
                     @interfacemethod
                     def __adapt__(self, obj):
                         log.append("x")
                         if obj is not ob:
                             log.append("WRONG-ARG")
-                        if cu == "n":
+                        if tok == "n":
                             return None
-                        if cu.startswith("v"):
-                            return val(int(cu[1:]))
-                        raise boom(int(cu[1:]), cu[0] == "Q")
-                return IC
+                        if tok.startswith("v"):
+                            return val(int(tok[1:]))
+                        raise boom(int(tok[1:]), tok[0] == "Q")
+                if not inherited:
+                    return IC
+
+                # the custom __adapt__ is inherited; the derived interface defines another interfacemethod of its own
+                class ID(IC):
+                    @interfacemethod
+                    def helper(self):
+                        return 1
+                return ID
             I = mk()
         # provided-check is observed through a providedBy that logs
         if prov == "1":
